@@ -1,6 +1,8 @@
 (* Run/C32.v — case decoder / observable encoder for the C32 correspondence.
 
-   case  (fork env withdrawals pre txs)
+   case  (fork env withdrawals pre txs)  |  (fork env withdrawals pre txs split)
+     split (optional) = number of transactions in a first block (no withdrawals); the rest
+           and the withdrawals form a second block in the same environment
      fork  0 = Cancun, 1 = Prague, 2 = Osaka
      env   (coinbase timestamp number prevrandao gaslimit chainid basefee blobbasefee)
      withdrawals ((addr amount_gwei) ...)
@@ -110,8 +112,37 @@ Fixpoint run_txs (tf : tfork) (b : benv) (ls : loop_state) (txs : list tx) : lis
       :: run_txs tf b ls' r
   end.
 
+(* one block, or two blocks: the first [split] transactions (no withdrawals), then the rest
+   with the withdrawals, in the same block environment *)
+Definition run_case (fk : Z) (b : benv) (ws : list (N * N)) (accounts : nmap account)
+           (txl : list tx) (split : nat) : sx :=
+  let tf := match fk with 1%Z => prague_tf | 2%Z => osaka_tf | _ => cancun_tf end in
+  let txs1 := if (split <? length txl)%nat then firstn split txl else txl in
+  let txs2 := if (split <? length txl)%nat then skipn split txl else [] in
+  let two := (split <? length txl)%nat in
+  let mid := if two then block_body tf b accounts txs1 [] else accounts in
+  let post := if two then block_body tf b mid txs2 ws else block_body tf b accounts txs1 ws in
+  SL [SL (run_txs tf b (init_loop accounts) txs1 ++ (if two then run_txs tf b (init_loop mid) txs2 else []));
+      SI (total_accts accounts); SI (total_accts post); SI (withdrawals_total ws);
+      SI (loop_burnt tf b (init_loop accounts) txs1 + (if two then loop_burnt tf b (init_loop mid) txs2 else 0))%Z;
+      SI (loop_destroyed tf b (init_loop accounts) txs1
+          + (if two then loop_destroyed tf b (init_loop mid) txs2 else 0))%Z;
+      SL (map (fun x => SL [sn (fst x); sn (acc_balance (snd x)); sn (acc_nonce (snd x))]) post)].
+
 Definition C32_run (c : sx) : sx :=
   match c with
+  | SL [SI fk;
+        SL [SI coinbase; SI time; SI number; SI randao; SI gaslimit; SI chainid; SI basefee;
+            SI blobbasefee];
+        wds; pre; txs; SI split] =>
+      match sx_list_of dec_withdrawal wds, sx_list_of dec_account pre, sx_list_of dec_tx txs with
+      | Some ws, Some accts, Some txl =>
+          let accounts := fold_left (fun m x => nm_set m (fst x) (snd x)) accts [] in
+          let b := mk_benv (Z.to_N coinbase) (Z.to_N time) (Z.to_N number) (Z.to_N randao)
+                           (Z.to_N gaslimit) (Z.to_N chainid) (Z.to_N basefee) (Z.to_N blobbasefee) in
+          run_case fk b ws accounts txl (Z.to_nat split)
+      | _, _, _ => SErr 1
+      end
   | SL [SI fk;
         SL [SI coinbase; SI time; SI number; SI randao; SI gaslimit; SI chainid; SI basefee;
             SI blobbasefee];
